@@ -81,7 +81,7 @@ def r2_best_of_population(ctx):
     fn = fns[0]
     bad = []
     n = 0
-    for size in range(0, 4):
+    for size in range(0, 5 if ctx.tier == "thorough" else 4):
         for order in (weak_orderings(size) if size else [()]):
             it = Interp(fn.body, chain(coll_oracle, std_oracle), [TOP], facts=F, inline=INLINE)
             it.init_state = {"rank": {"o:%d" % i: r for i, r in enumerate(order)}, "heap": {"v0": tuple(ind(i) for i in range(size))}, "next_vec": 1}
@@ -152,10 +152,11 @@ def r5_archive(ctx):
     fn = F.fn(ARCH + "::update")
     bad = []
     n = 0
-    for na in range(0, 3):
+    NA = 4 if ctx.tier == "thorough" else 3
+    for na in range(0, NA):
         for npop in range(0, 3):
             for order in (weak_orderings(na + npop) if na + npop else [()]):
-                for cap in range(0, 4):
+                for cap in range(0, NA + 1):
                     home = 10000
                     it = Interp(fn.body, chain(coll_oracle, std_oracle), [Ref(home, [], frame="root"), Vec("pop"), cap], facts=F, inline=INLINE)
                     it.extra_env = {home: Agg("adt", ARCH, "ElitistArchive", [Vec("arch")])}
